@@ -134,6 +134,16 @@ func init() {
 					default:
 						h = r.genIPv4()
 					}
+					// a digit, a dot or the x of a hex part written as an escape, or as the escape of an escape (which decodes to
+					// text with a '%' in it: never a number, never an address)
+					if i%5 == 0 && len(h) > 0 {
+						k := r.Intn(len(h))
+						esc := fmt.Sprintf("%%%02X", h[k])
+						if r.Chance(1, 2) {
+							esc = "%25" + esc[1:]
+						}
+						h = h[:k] + esc + h[k+1:]
+					}
 				}
 				c.Count("v4\x00"+h, strings.ContainsAny(h, "0123456789"), "")
 				cs := Case{Kind: "unit", Input: h, Family: "ipv4", Index: i}
@@ -488,6 +498,26 @@ func init() {
 				m := d.Ask("HOST default 0 " + hx(host))
 				if (err == nil) != strings.HasPrefix(m, "ok ") || err == nil && strings.Fields(m)[1] != hx(got) {
 					c.Report(Finding{Class: "correspondence", What: fmt.Sprintf("parseHost(%q): model %s, implementation (%q, %v)", host, m, got, err), Case: cs})
+				}
+				// the bracket rule is the same under every option, lax host parsing included (what GoogleSafeBrowsing and Semantic
+				// use): a host starting with '[' is an IPv6 literal between one pair of brackets or it is rejected
+				if i%2 == 0 || i >= total {
+					for _, cd := range []string{"lax", "lax+acceptInvalid+singlePct", "report+lax"} {
+						oc := cfgFromDesc(cd)
+						for k, ns := range []bool{false, true} {
+							g, e, _ := url.VerifParseHost(oc.Parser, host, ns)
+							if e != nil && want != "fail" || e == nil && (want == "fail" || "["+unhx(strings.Fields(want)[1])+"]" != g) {
+								c.Report(Finding{Class: "violation", What: fmt.Sprintf("under options %s the host parser (opaque=%v) on %q gives (%q, err=%v), the standard: %s", cd, k == 1, host, g, e, descSpec(want)),
+									Case: Case{Kind: "unit", Cfg: oc.Desc, Input: host, Family: "ipv6-parser:" + cd, Index: i}})
+							}
+						}
+						oc.Ensure(d)
+						mm := d.Ask("HOST " + oc.ID + " 0 " + hx(host))
+						g0, e0, _ := url.VerifParseHost(oc.Parser, host, false)
+						if (e0 == nil) != strings.HasPrefix(mm, "ok ") || e0 == nil && strings.Fields(mm)[1] != hx(g0) {
+							c.Report(Finding{Class: "correspondence", What: fmt.Sprintf("parseHost(%q) under %s: model %s, implementation (%q, %v)", host, cd, mm, g0, e0), Case: Case{Kind: "unit", Cfg: oc.Desc, Input: host, Family: "ipv6-parser:" + cd, Index: i}})
+						}
+					}
 				}
 				// through the public API (only when the host text cannot change the URL structure)
 				if !strings.ContainsAny(host[1:], "/\\?#@[ \t\n\r") && strings.Count(host, "]") == 1 && strings.HasSuffix(host, "]") {
